@@ -2,9 +2,10 @@
 from __future__ import annotations
 
 import ast
-from typing import List, Optional, Tuple
+from typing import Dict, List, Optional, Tuple
 
-from ..core import call_attr, norm, parent
+from ..core import AnalysisError, call_attr, norm, parent, short
+from ..report import Ctx
 
 
 def iter_direction(it: ast.AST) -> Tuple[Optional[str], int]:
@@ -74,3 +75,57 @@ def loop_accumulations(fn: ast.AST, var: str) -> List[Tuple[ast.For, ast.stmt, i
                     if p is loop:
                         out.append((loop, st, d, s))
     return out
+
+
+# --------------------------------------------------------------------------- order.topological (consumers that re-emit the operations)
+
+def rule_sequence_source(ctx: Ctx, sites: List[Tuple[str, str]]) -> None:
+    """order.topological: a method that re-emits the circuit's operations one by one (JSON / openQASM export, the noise-annotated or
+    plain copy) walks `self.sequence(...)` — the topological order, i.e. an application order.  Node-creation order
+    (`self.dag.nodes`, sorted node ids, node_dict lists) equals an application order only for circuits built with add() alone:
+    insert_at / group_one_qubit_gates / the solvers place later-created nodes earlier in the circuit."""
+    repo = ctx.repo
+    n = 0
+    for rel, q in sites:
+        m = repo.module(rel)
+        fn = repo.anchor(rel, q)
+        ctx.touch(m, fn)
+        env: Dict[str, ast.AST] = {}
+        for a in ast.walk(fn):
+            if isinstance(a, ast.Assign) and len(a.targets) == 1 and isinstance(a.targets[0], ast.Name):
+                env.setdefault(a.targets[0].id, a.value)
+
+        def src_of(e: ast.AST, depth: int = 0) -> str:
+            t = norm(e)
+            if ".sequence(" in t or "_slim_seq(" in t:
+                return "sequence"
+            if "topological_sort" in t:
+                return "sequence"
+            if ".dag.nodes" in t or "node_dict" in t or ".dag)" in t or t.endswith(".dag"):
+                return "nodes"
+            if isinstance(e, ast.Name) and e.id in env and depth < 4:
+                return src_of(env[e.id], depth + 1)
+            for ch in ast.iter_child_nodes(e):
+                r = src_of(ch, depth + 1) if depth < 6 else "?"
+                if r in ("sequence", "nodes"):
+                    return r
+            return "?"
+
+        its = [(l, l.iter) for l in ast.walk(fn) if isinstance(l, ast.For)] + \
+              [(c, g.iter) for c in ast.walk(fn) if isinstance(c, (ast.ListComp, ast.GeneratorExp)) for g in c.generators]
+        srcs = [(node, src_of(it)) for node, it in its]
+        seqs = [x for x in srcs if x[1] == "sequence"]
+        nodes = [x for x in srcs if x[1] == "nodes"]
+        n += 1
+        if nodes:
+            ctx.fail("order.topological", m, nodes[0][0],
+                     f"{q} enumerates the operations from `{short(nodes[0][0].iter if isinstance(nodes[0][0], ast.For) else nodes[0][0], 70)}` (node-creation "
+                     f"order) instead of self.sequence(): for a circuit edited with insert_at / group_one_qubit_gates, or produced by a solver, the "
+                     f"operations are re-emitted in an order that is not an application order, so the exported / copied circuit compiles to a "
+                     f"different state", func=q, construct=f"{q}: operations enumerated in node-creation order")
+        elif seqs:
+            ctx.ok("order.topological", m, seqs[0][0], what=f"{q} walks self.sequence()")
+        else:
+            raise AnalysisError(f"{q}: no loop over the circuit's operations recognised")
+    if n == 0:
+        raise AnalysisError("order.topological: no site")
